@@ -386,6 +386,43 @@ def observe(case, docs):
                 q2, e2, w2 = guarded(p2.clone)
                 o2["clone"] = {"err": e2, "warn": w2, "hash": q2.config_hash if q2 is not None else None}
             out["from_config_edit"] = o2
+    if p is not None:
+        # session 2 (seed C13-10): a builder DERIVED from the built pipeline (Pipeline.modify()) and edited in every way must
+        # leave the source as it was -- its configuration, hash and results unchanged, so that the configuration still
+        # reproduces it (clone without a hash warning).  Only public calls; edits that the builder refuses are skipped.
+        before = obs_config(p)
+        names = [n.name for n in p.nodes()]
+        def derive_and_edit():
+            mb = p.modify()
+            done = 0
+            for cname_, comp in json.loads(before["js_full"])["components"].items():
+                for param, cur in (comp.get("inputs") or {}).items():
+                    other = next((x for x in names if x != cur and x != cname_), None)
+                    if other is None:
+                        continue
+                    try:
+                        mb.connect(cname_, **{param: other})
+                        done += 1
+                    except Exception:
+                        pass
+            try:
+                mb.alias("derived-alias", names[0])
+            except Exception:
+                pass
+            mb.name = "derived"
+            mb.version = "0-derived"
+            return done
+        done, e, _ = guarded(derive_and_edit)
+        after = obs_config(p)
+        q, e2, w2 = guarded(p.clone)
+        am = {"edits": done, "err": e, "same": after["js_full"] == before["js_full"] and after["hash"] == before["hash"]
+              and after["name"] == before["name"] and after["version"] == before["version"],
+              "clone_err": e2, "clone_warn": w2}
+        if not am["same"]:
+            am["now"] = after["js_full"]
+        if case.get("runs"):
+            am["runs_same"] = run_all(p, case["runs"], targets) == out["built"].get("runs")
+        out["after_modify"] = am
     out["reloads"] = []
     for label, text in docs:
         q, e, w = guarded(lambda: Pipeline.from_config(json.loads(text)))
